@@ -1587,7 +1587,9 @@ class Affine:
             affine.linear = lil_matrix(affine.linear)
             affine.linear[bool_idx] = 0.0
             affine.linear = csr_matrix(affine.linear)
-            affine.const = np.diag(np.diag(affine.const, k), k)
+            new_const = np.zeros(self.shape)
+            new_const[idx_row, idx_col] = affine.const[idx_row, idx_col]
+            affine.const = new_const
 
             return affine
         else:
